@@ -8,8 +8,8 @@ import (
 	"wa-lang.org/wa/internal/backends/compiler_wat"
 	"wa-lang.org/wa/internal/config"
 	"wa-lang.org/wa/internal/loader"
-	"wa-lang.org/wa/internal/wat/watutil/watstrip"
 	"wa-lang.org/wa/internal/wat/watutil"
+	"wa-lang.org/wa/internal/wat/watutil/watstrip"
 )
 
 // Compile builds the program at path (a .wa/.wz file or a wa.mod directory).
